@@ -1105,3 +1105,12 @@ package types
 //@   ensures [flagIsOneOfTheThree] err == nil ==> cs.BlockIDFlag == BlockIDFlagAbsent || cs.BlockIDFlag == BlockIDFlagCommit || cs.BlockIDFlag == BlockIDFlagNil
 //@   ensures [signedUnlessAbsent] err == nil && cs.BlockIDFlag != BlockIDFlagAbsent ==> len(cs.Signature) > 0
 //@   ensures [absentSlotIsEmpty] err == nil && cs.BlockIDFlag == BlockIDFlagAbsent ==> len(cs.Signature) == 0 && cs.ValidatorAddress == common.Address{}
+
+// ---------------------------------------------------------------- C14: what can be saved can be loaded
+// A validator is refused on load only for what makes it invalid: nil, a negative power, a malformed
+// address. Every power the update rules allow (up to MaxTotalVotingPower inclusive) is accepted.
+//@ func (v *Validator) ValidateBasic() (err error)
+//@   for C14
+//@   modifies *
+//@   ensures [nilRejected] v == nil ==> err != nil
+//@   ensures [everyLegalPowerAccepted] v != nil && 0 <= v.VotingPower && result(IsHexAddress) ==> err == nil
